@@ -248,7 +248,9 @@ def check_at(R, rule, G, res, target, require, key_fn, describe, min_sites=1, wh
         else:
             R.held(rule, key, G.root.id, ev.loc(), describe(ev) + (' [unreachable]' if not states else ''), nontrivial=bool(states))
     if n < min_sites:
-        raise AnalysisBroken('%s: expected >= %d site(s) of %s in %s, found %d' % (rule, min_sites, what or 'target', G.root.id, n))
+        # recorded, not raised: the remaining rules of the group still run (a deleted mechanism must
+        # surface as the VIOLATION of its must-call rule, not hide behind a floor)
+        R.broken.append('%s: expected >= %d site(s) of %s in %s, found %d' % (rule, min_sites, what or 'target', G.root.id, n))
     return n
 
 
@@ -336,7 +338,8 @@ def k9_who_writes(R, rule, prog, field, allowed, min_sites=1, funcs=None):
     """Writes of member `field` occur only in functions whose nname is in `allowed`."""
     n = 0
     for f in (funcs if funcs is not None else prog.funcs.values()):
-        if not any(e['k'] == 'member' and e.get('field') == field for e in f.exprs):
+        if not any(e['k'] == 'member' and e.get('field') == field for e in f.exprs) and \
+           not (f.kind == 'ctor' and any(ev.get('field') == field for b in f.blocks.values() for ev in b['ev'] if ev['e'] == 'init')):
             continue
         G = Graph(prog, f)
         for nid, idx, ev in G.events():
@@ -460,3 +463,49 @@ def returned_call(ev):
         rs = set(f.skip(e['sub']) for e in f.exprs if e['k'] == 'return' and e.get('sub', -1) >= 0)
         f._return_subs = rs
     return ev.x in rs
+
+
+def field_alias_decls(f, field):
+    """decl ids of reference/pointer locals of f bound to member `field` (auto& c = th->semaphore_count)."""
+    al = f.aliases()
+    out = set()
+    for d, init in al.items():
+        e = f.x(f.skip(init))
+        if e is not None and e['k'] == 'unop' and e['op'] == '&':
+            e = f.x(f.skip(e['sub']))
+        if e is not None and e['k'] == 'member' and e.get('field') == field:
+            out.add(d)
+    return out
+
+
+def touches_field(ev, field, G=None, alias_cache={}):
+    """True if event ev reads or writes member `field` directly or through a local reference alias
+    (also when the alias is captured by reference in a spliced lambda; pass G for that)."""
+    f = ev.f
+    e = ev.e
+    if e is None:
+        return False
+    if ev.kind == 'member':
+        return e.get('field') == field
+
+    def names_of(fn):
+        key = (id(fn), field)
+        if key not in alias_cache:
+            alias_cache[key] = set(fn.decls[d]['name'] for d in field_alias_decls(fn, field))
+        return alias_cache[key]
+    names = set(names_of(f))
+    if G is not None and f.kind == 'lambda':
+        p = f
+        hops = 0
+        while p is not None and p.kind == 'lambda' and p.parent and hops < 4:
+            p = G.prog.funcs.get(p.parent)
+            hops += 1
+            if p is not None:
+                names |= names_of(p)
+    if not names:
+        return False
+    for c in f.children(ev.x):
+        ce = f.x(f.skip(c))
+        if ce is not None and ce['k'] == 'ref' and ce['name'] in names:
+            return True
+    return False
